@@ -205,6 +205,41 @@ func runC04(c *Ctx) {
 
 	c.rule("C04.G1", "what a misbehaving peer sends never gets between the honest peer and the store: a headers message whose last header builds on nothing leaves the in-memory list ahead of the store if the link pre-check lets it through, and the honest peer's headers are then taken for duplicates: "+headersLinkedDoc, func() { c.headersLinked() })
 
+	c.rule("C04.O7", "the peer can locate the fork point even when none of the recent hashes is on its chain: "+blockLocatorDoc, func() { c.blockLocatorToGenesis() })
+
+	c.rule("C04.O8", "every remaining sync candidate is looked at: container/list clears an element's links when it is removed, so a loop that prunes while it walks must take the next element before the removal; nowhere in the module is Next() or Prev() called on an element after a List.Remove of that same element can have run (the walk would end at the first pruned candidate and the honest peer behind it would never be asked)", func() {
+		remove := c.method("container/list", "List", "Remove")
+		next := c.method("container/list", "Element", "Next")
+		prev := c.method("container/list", "Element", "Prev")
+		n := 0
+		var bad []string
+		var sites []ssa.Instruction
+		for _, fn := range c.P.Funcs {
+			for _, rm := range find(fn, callTo(remove)) {
+				n++
+				sites = append(sites, rm)
+				_, a := recvAndArgs(rm)
+				if len(a) != 1 {
+					continue
+				}
+				el := ir.Strip(a[0])
+				// within the iteration: around the back edge the same SSA
+				// value stands for the next element
+				ir.WalkAfter(rm, ir.BackEdges(fn), func(in ssa.Instruction) bool {
+					if callTo(next, prev)(in) {
+						recv, _ := recvAndArgs(in)
+						if ir.Strip(recv) == el {
+							bad = append(bad, c.nm(fn)+": the element removed at "+c.at(rm)+" is asked for its neighbour at "+c.at(in))
+						}
+					}
+					return true
+				})
+			}
+		}
+		sort.Strings(bad)
+		c.verdict(n >= 1 && len(bad) == 0, "module | no list element is walked from after its removal", "", fmt.Sprintf("%d List.Remove site(s); none followed by Next/Prev on the removed element", n), join(uniq(bad)), c.ats(sites)...)
+	})
+
 	c.rule("C04.O6", "the honest peer stays reachable for queries: "+workerPerPeerDoc, func() { c.workerPerPeer() })
 
 	c.rule("C04.O1", "progress steps (each a necessary condition of convergence): losing the sync peer re-selects one; a new sync candidate triggers startSync; a selected sync peer is asked for headers; a committed headers batch updates the header tip, wakes the filter-header sync and asks for more while not current; committed filter headers wake their waiters; an accepted peer is announced to the block manager and its departure too; the subscription manager is started before the broadcaster subscribes", func() {
